@@ -385,7 +385,7 @@ def make_replay(pid, v, krun):
             if not wanted:
                 rec['twin_note'] = 'the non-modular twin harness produced no counterexample within 300 s (the change may be unobservable through this function, or the search timed out)'
         if not wanted:
-            r = krun.run_harness(u, v['harness'], playback=True, solver_override=v.get('solver'))
+            r = krun.run_harness(u, v['harness'], playback=True, solver_override=('cadical' if v.get('needs_native') else v.get('solver')), timeout=300)
             tests = K.parse_playback(r['out'])
             for t in tests:
                 if t['desc'] in v.get('descs', []):
